@@ -247,10 +247,19 @@ def run_shard(shard_prop, bins, workdir, tier):
             if via != 'sort' and not distinct:
                 via = 'sort'          # the utilities only make sense on objects with distinct keys
             sorter = ('sort 1 %d' % cs) if via == 'sort' else ('sortvia %s 1 %d' % (via, cs))
-            ops = ['build 1 ' + to_tn(o), 'order 1', sorter, 'chk 1', 'tn 1', 'order 1', sorter, 'tn 1', 'order 1']
+            member = via == 'sort' and i % 4 == 1     # the object is a constant-key member of a parent: flags on the sorted item
+            ck = 'chkn' if member else 'chk'
+            if member:
+                o.key, o.kconst = b'ck', True
+                head = ['build 8 o1;' + to_tn(o), 'child 1 8 0']
+                o.key, o.kconst = None, False
+            else:
+                head = ['build 1 ' + to_tn(o), 'size ~']
+            ops = head + ['order 1', sorter, ck + ' 1', 'tn 1', 'order 1', sorter, 'tn 1', 'order 1']
             # continued use: append, insert-free operations that must behave as on any other object
-            ops += ['cnum 2 %016x' % 0x4045000000000000, 'addo 1 %s 2' % hx(b'zzz-appended'), 'chk 1', 'tn 1', 'size 1',
-                    'deta 1 0 3', 'chk 1', 'chk 3', 'tn 1', 'cobj 5', 'htrue 5 =7265706c 4', 'deta 5 0 6', 'repa 1 0 4' if o.kids else 'addo 1 =7265706c 4', 'chk 1', 'tn 1', 'print 1 0', 'print 1 1', 'del 3', 'del 5', 'del 1']
+            ops += ['cnum 2 %016x' % 0x4045000000000000, 'addo 1 %s 2' % hx(b'zzz-appended'), ck + ' 1', 'tn 1', 'size 1',
+                    'deta 1 0 3', ck + ' 1', 'chk 3', 'tn 1', 'cobj 5', 'htrue 5 =7265706c 4', 'deta 5 0 6', 'repa 1 0 4' if o.kids else 'addo 1 =7265706c 4', ck + ' 1', 'tn 1', 'print 1 0', 'print 1 1', 'del 3', 'del 5']
+            ops += (['clr 1', 'del 8'] if member else ['del 1'])
             cases.append((i, 'default' if i % 2 else 'custom', ops))
             extra[i] = (o, cs, distinct, via)
     elif kind == 'faultcfg':
@@ -275,6 +284,25 @@ def run_shard(shard_prop, bins, workdir, tier):
                     extra[cid] = ('chain', chain_kind + ('+elder-siblings' if elder else ''), depth, expect)
                     cid += 1
         # child cycles of 1, 2 and 3 nodes, cut again before deletion
+        # breadth is not depth: containers with more children than CJSON_CIRCULAR_LIMIT must be copied
+        for shape in ('flat-array', 'flat-object', 'two-level', 'tail-nested'):
+            n = lim_c + 1
+            if shape == 'flat-array':
+                t = Node('a'); t.kids = [Node.num(float(i % 7)) for i in range(n)]
+            elif shape == 'flat-object':
+                t = Node('o'); t.kids = [Node('t', key=b'k%d' % i) for i in range(n + 4)]
+            elif shape == 'two-level':
+                inner = Node('a'); inner.kids = [Node('z') for _ in range(n // 2 + 1)]
+                t = Node('a'); t.kids = [Node('f') for _ in range(n // 2)] + [inner]
+            else:
+                cur = Node('a'); cur.kids = [Node.num(1.0)]
+                for _ in range(40):
+                    o = Node('a'); o.kids = [Node('z') for _ in range(300)] + [cur]; cur = o
+                t = cur
+            ops = ['build 1 ' + to_tn(t), 'dupx 2 1 0', 'chk 2', 'del 2', 'del 1']
+            cases.append((cid, 'custom' if cid % 2 else 'default', ops))
+            extra[cid] = ('wide', shape)
+            cid += 1
         # cycles that run through a second element (the refused branch has an elder sibling)
         for ncyc in (2, 3):
             ops = ['carr 1', 'carr 2', 'carr 3', 'cnum 4 3ff0000000000000', 'adda 1 4', 'adda 1 2']
@@ -428,8 +456,8 @@ def judge_sort(prop, cl, ex, out, wit, first):
     if [to_tn(k) for k in t3.kids] != exp3:
         out.vios.append(Violation(prop, 'C19/after-sort/append', 'appending after sort: expected %d members with the new one last, got %d' % (len(exp3), len(t3.kids)), wit(cl, 10)))
         return
-    if cl.ops.get(13) != [str(len(exp3))]:
-        out.vios.append(Violation(prop, 'C19/after-sort/size', 'size after append is %s, expected %d' % (cl.ops.get(13), len(exp3)), wit(cl, 13)))
+    if cl.ops.get(14) != [str(len(exp3))]:
+        out.vios.append(Violation(prop, 'C19/after-sort/size', 'size after append is %s, expected %d' % (cl.ops.get(14), len(exp3)), wit(cl, 14)))
         return
     t4 = from_tn(tns[3])
     if [to_tn(k) for k in t4.kids] != exp3[1:]:
@@ -439,7 +467,7 @@ def judge_sort(prop, cl, ex, out, wit, first):
     if [to_tn(k) for k in t5.kids] != ['k7265706c;t'] + exp3[2:]:   # (empty object: the item was appended instead, same dump)
         out.vios.append(Violation(prop, 'C19/after-sort/replace', 'replacing index 0 after sort left the wrong members', wit(cl, 21)))
         return
-    for idx in (3, 11, 15, 16, 22):
+    for idx in (4, 12, 16, 17, 23):
         f = cl.ops.get(idx)
         if f and f[0] == 'chk' and len(f) > 1 and f[1] == 'bad':
             out.vios.append(Violation(prop, 'C19/after-sort/malformed', 'structural check failed at op %d' % idx, wit(cl, idx)))
@@ -449,6 +477,15 @@ def judge_sort(prop, cl, ex, out, wit, first):
 
 
 def judge_deep(prop, cl, ex, out, wit, first, fl):
+    if ex[0] == 'wide':
+        f = cl.ops.get(1)
+        if first:
+            out.count('wide:' + ex[1])
+        if not f or f[:2] != ['dupx', 'p']:
+            out.vios.append(Violation(prop, prop + '/wide/refused', 'Duplicate of a shallow but wide tree (%s) returned %s' % (ex[1], f), wit(cl, 1)))
+        if cl.end and cl.end.get('live') != '0':
+            out.vios.append(Violation(prop, prop + '/wide/leak', '%s blocks live at the end' % cl.end['live'], wit(cl, 0)))
+        return
     if ex[0] == 'chain':
         _, ck, depth, expect = ex
         f = cl.ops.get(2)
@@ -508,7 +545,7 @@ def finish(prop, tier, results):
     muts = {k[4:]: v for k, v in sorted(tot.stats.items()) if k.startswith('mut:')}
     if muts:
         cov['programs_reaching_mutation_kind'] = muts
-    for pre in ('cfg:', 'size:', 'mode:', 'deep:', 'cycle:'):
+    for pre in ('cfg:', 'size:', 'mode:', 'deep:', 'cycle:', 'wide:'):
         d = {k[len(pre):]: v for k, v in sorted(tot.stats.items()) if k.startswith(pre)}
         if d:
             cov[pre[:-1] + '_counts'] = d
